@@ -6,6 +6,7 @@ cd "$(dirname "$0")/.." || exit 2
 git -C "$R" diff --quiet || { echo "/repo has uncommitted changes"; exit 2; }
 for d in seeded/*/; do
   [ -n "${MATRIX_FROM:-}" ] && [[ "$(basename $d)" < "$MATRIX_FROM" ]] && continue
+  [ -n "${MATRIX_ONLY:-}" ] && [[ " $MATRIX_ONLY " != *" $(basename $d) "* ]] && continue
   pid=$(python3 -c "import json;print(json.load(open('$d/meta.json'))['property'])")
   git -C "$R" apply "$PWD/$d/patch.diff" || { echo "$d patch does not apply"; continue; }
   for sd in ${MATRIX_SEEDS:-0 1 2}; do
